@@ -577,3 +577,81 @@ Proof.
   - exact Hec.
   - replace (ec * s0 * (ec * pn)) with ((ec * ec) * s0 * pn) by ring. rewrite Hecc. field. lra.
 Qed.
+
+(* ---------------------------------------------------------------- exact on the polar axis and in the equatorial plane, any height *)
+Lemma is_pole_axis a : is_pole a 0 0.
+Proof.
+  unfold is_pole. pose proof Q2R_pole_pos. unfold Rsqr. assert (0 <= a * a) by nra. nra.
+Qed.
+
+Lemma trs2llh_exact_on_axis_l a f z : 0 < a -> f < 1 -> z <> 0 ->
+  let '(lat, lon, h) := trs2llh_R a f 0 0 z in llh2trs_R a f lat lon h = (0, 0, z).
+Proof.
+  intros Ha Hf Hz.
+  destruct (trs2llh_pole_l a f 0 0 z (is_pole_axis a)) as [E _]. rewrite E.
+  unfold llh2trs_R, ell_b.
+  assert (Hw : sqrt ((1 - f)²) = 1 - f) by (apply sqrt_Rsqr; lra).
+  assert (Hs : (sign_R z = 1 /\ Rabs z = z) \/ (sign_R z = -1 /\ Rabs z = - z)).
+  { unfold sign_R. destruct (Rlt_dec 0 z).
+    - left. split; [reflexivity | apply Rabs_pos_eq; lra].
+    - destruct (Rlt_dec z 0); [|lra]. right. split; [reflexivity | apply Rabs_left; lra]. }
+  destruct Hs as [[S A] | [S A]]; rewrite S, A.
+  - replace (PI / 2 * 1) with (PI / 2) by ring. rewrite cos_PI2, sin_PI2.
+    replace (0² + (1 - f)² * 1²) with ((1 - f)²) by (unfold Rsqr; ring). rewrite Hw.
+    f_equal; [f_equal|]; try ring. unfold Rsqr. field. lra.
+  - replace (PI / 2 * -1) with (- (PI / 2)) by ring. rewrite cos_neg, sin_neg, cos_PI2, sin_PI2.
+    replace (0² + (1 - f)² * (- (1))²) with ((1 - f)²) by (unfold Rsqr; ring). rewrite Hw.
+    f_equal; [f_equal|]; try ring. unfold Rsqr. field. lra.
+Qed.
+
+Lemma trs2llh_exact_on_equator_l a f x y : 0 < a -> f < 1 -> ~ is_pole a x y ->
+  sqrt (x² + y²) <> a * ell_e2 a f ->
+  trs2llh_R a f x y 0 = (0, atan2 y x, sqrt (x² + y²) - a)
+  /\ llh2trs_R a f 0 (atan2 y x) (sqrt (x² + y²) - a) = (x, y, 0).
+Proof.
+  intros Ha Hf Hnp Hne. unfold is_pole in Hnp.
+  assert (Hp2 : 0 < x² + y²).
+  { apply Rnot_le_lt in Hnp. pose proof Q2R_pole_pos. assert (0 <= a² * Q2R q_pole) by (unfold Rsqr; nra). lra. }
+  set (p := sqrt (x² + y²)) in *.
+  assert (Hp : 0 < p) by (apply sqrt_lt_R0; exact Hp2).
+  split.
+  - unfold trs2llh_R. destruct (Rle_dec _ _) as [C|_]; [contradiction|]. fold p.
+    destruct (ellipsoid_params_l a f) as [_ [_ Hec2]]; [lra|].
+    set (e2 := ell_e2 a f) in *.
+    assert (Hec2' : 0 < 1 - e2) by (rewrite <- Hec2; unfold Rsqr; nra).
+    set (ec := sqrt (1 - e2)).
+    assert (Hec : 0 < ec) by (apply sqrt_lt_R0; exact Hec2').
+    rewrite Rabs_R0. replace (0 / a) with 0 by (field; lra). replace (ec * 0) with 0 by ring.
+    set (pn := p / a). assert (Hpn : 0 < pn) by (apply Rdiv_lt_0_compat; assumption).
+    set (c0 := ec * pn). assert (Hc0 : 0 < c0) by (apply Rmult_lt_0_compat; assumption).
+    assert (HA : sqrt (c0² + 0²) = c0).
+    { replace (c0² + 0²) with (c0²) by (unfold Rsqr; ring). apply sqrt_Rsqr. lra. }
+    assert (ES : halley_S e2 ec pn 0 0 c0 = 0).
+    { unfold halley_S, halley_d0, halley_f0, halley_b0. rewrite HA. unfold Rsqr. ring. }
+    assert (EC : halley_C e2 ec pn 0 0 c0 = (c0 * c0 * c0 * (pn - e2))²).
+    { unfold halley_C, halley_d0, halley_f0, halley_b0. rewrite HA. unfold Rsqr. ring. }
+    rewrite ES, EC.
+    set (cc := ec * (c0 * c0 * c0 * (pn - e2))²).
+    assert (Hpne : pn - e2 <> 0).
+    { unfold pn. intros C. apply Hne. apply (Rmult_eq_reg_r (/ a)); [|apply Rinv_neq_0_compat; lra].
+      replace (a * e2 * / a) with e2 by (field; lra). unfold Rdiv in C. lra. }
+    assert (Hcc : 0 < cc).
+    { unfold cc. apply Rmult_lt_0_compat; [exact Hec|]. apply Rsqr_pos_lt.
+      assert (H3 : 0 < c0 * c0 * c0) by (apply Rmult_lt_0_compat; [apply Rmult_lt_0_compat|]; exact Hc0).
+      apply Rmult_integral_contrapositive_currified; [apply Rgt_not_eq; exact H3 | exact Hpne]. }
+    assert (S0 : sign_R 0 = 0) by (unfold sign_R; destruct (Rlt_dec 0 0); lra).
+    rewrite S0.
+    replace ((1 - e2) * 0² + cc²) with (cc²) by (unfold Rsqr; ring).
+    replace (0² + cc²) with (cc²) by (unfold Rsqr; ring).
+    rewrite sqrt_Rsqr by lra.
+    f_equal; [f_equal; ring|]. field. lra.
+  - unfold llh2trs_R. rewrite cos_0, sin_0.
+    replace (1² + (1 - f)² * 0²) with 1 by (unfold Rsqr; ring). rewrite sqrt_1.
+    destruct (atan2_sin_cos x y) as [Hx Hy].
+    { unfold Rsqr in Hp2. destruct (Req_dec x 0) as [E|E]; [right; intros E'; subst; lra | left; exact E]. }
+    fold (Rsqr x) in Hx, Hy. fold (Rsqr y) in Hx, Hy. fold p in Hx, Hy.
+    f_equal; [f_equal|].
+    + rewrite Hx at 2. field.
+    + rewrite Hy at 2. field.
+    + ring.
+Qed.
